@@ -18,8 +18,9 @@ def heads(*hs):
 
 class Job:
     def __init__(self, family, quick, thorough, size=0, extra=(), fsets=("default",), fsets_thorough=None,
-                 relevant=None, nontrivial=None, timeout=600, label=None, size_thorough=None, needs_bins=False):
+                 relevant=None, nontrivial=None, timeout=600, label=None, size_thorough=None, needs_bins=False, cap=None):
         self.needs_bins = needs_bins
+        self.cap = cap  # upper bound of cases per run (expensive cases: the drift / extended-search factors are capped)
         self.family = family
         self.quick = quick
         self.thorough = thorough
@@ -71,7 +72,9 @@ PROPS["C06"] = dict(
               relevant=heads(*OPS, "dump", "wfcheck", "classes", "alltt"), nontrivial=nt_bdd),
           Job("persist", 400, 10000, size=5, size_thorough=6, relevant=heads("pop", "pjson", "prebuild", "pfinish", "wfcheck"),
               nontrivial=lambda st: int(st.get("trips", 0)) >= 1 and int(st.get("nodes", 0)) >= 3, label="reimport"),
-          Job("adf", 300, 10000, size=6, extra=("sem",), relevant=heads("adopt", "adump", "wfcheck"), nontrivial=lambda st: int(st.get("nodes", 0)) >= 5, label="bridge")],
+          Job("adf", 300, 10000, size=6, extra=("sem",), relevant=heads("adopt", "adump", "wfcheck"), nontrivial=lambda st: int(st.get("nodes", 0)) >= 5, label="bridge"),
+          Job("bdd", 2, 24, size=16, size_thorough=18, extra=("big",), relevant=heads(*OPS, "alltt", "dump", "wfcheck"),
+              nontrivial=lambda st: int(st.get("memo", 0)) > 65536, label="huge-stores", timeout=1800, cap=12)],
     rule="random operation sequences (3-45 ops over 2-6 variables: var/const/not/and/or/imp/iff/xor/restrict on earlier results) on one shared Bdd; "
          "after each sequence the real node table is dumped and checked by the verified wfCheck, handle equality of ALL issued handles is compared with "
          "truth-table equality, and the table is compared index by index with the model's; non-trivial = distinct sequence creating >= 3 inner nodes",
@@ -86,7 +89,9 @@ PROPS["C07"] = dict(
     level_note="Trusted: Lean kernel + standard axioms; model-to-code tie is differential testing over generated sequences (<= 7 variables, <= 45 operations); usize as Nat.",
     technique="Lean 4 proof (refinement of an abstract Boolean-function spec by the memoised ite/restrict store) + correspondence check",
     jobs=[Job("bdd", 1500, 60000, size=6, size_thorough=7,
-              relevant=heads(*OPS, "alltt", "dump"), nontrivial=nt_bdd)],
+              relevant=heads(*OPS, "alltt", "dump"), nontrivial=nt_bdd),
+          Job("bdd", 2, 24, size=16, size_thorough=18, extra=("big",), relevant=heads(*OPS, "alltt", "dump"),
+              nontrivial=lambda st: int(st.get("memo", 0)) > 65536, label="huge-stores", timeout=1800, cap=12)],
     rule="same sequences as C06; after every operation the truth table obtained by walking the REAL node table from the returned handle is compared with the "
          "specification's truth table (TT layer, independent of diagrams) and the handle with the proved model's handle; at the end every earlier handle is re-evaluated; "
          "non-trivial = distinct sequence creating >= 3 inner nodes",
@@ -250,7 +255,9 @@ PROPS["C10"] = dict(
     level_note="Trusted: Lean kernel + standard axioms; sort_unstable / natural_lexical_cmp trusted to return a permutation (checked per run); layout changes are parser matters (C08); CLI flags --lx/--an "
                "are exercised by C15.",
     technique="Lean 4 proof (equivariance of the consequence operator, lifted to least fixpoints, reducts and the concrete enumerations) + metamorphic correspondence runs against the order-independent specification",
-    jobs=[Job("adf", 500, 20000, size=6, size_thorough=7, extra=("present",), relevant=heads("present", "presented", "ordercheck"), nontrivial=nt_adf)],
+    jobs=[Job("adf", 500, 20000, size=6, size_thorough=7, extra=("present",), relevant=heads("present", "presented", "ordercheck"), nontrivial=nt_adf),
+          Job("adf", 40, 1200, size=5, extra=("cli",), timeout=900, needs_bins=True, relevant=heads("cli", "clirun", "clicheck"),
+              nontrivial=lambda st: int(st.get("n", 0)) >= 2, label="cli-sorting")],
     rule=ADF_GEN + "5 presentations per ADF (fact permutation x sorting mode x label class x layout); answers as statement->value maps vs Spec on the original; order checks; non-trivial = distinct ADF with >= 2 statements and >= 5 nodes",
     assumptions=["labels alphanumeric (quoted labels are C08/C15)"],
 )
@@ -535,6 +542,8 @@ def run_job(prop, job, tier, seed, fset, factor=1, extended=False):
     processed in chunks (one generator seed per chunk) to bound memory"""
     harness = R.harness_path(fset)
     cases = (job.quick if tier == "quick" else job.thorough) * factor
+    if job.cap is not None:
+        cases = min(cases, max(job.cap, job.quick if tier == "quick" else job.thorough))
     size = job.size if tier == "quick" else job.size_thorough
     # corpus of minimised past failures first
     corpus = ""
